@@ -74,10 +74,36 @@ def enc_vars(variables):
 # ---- a test printer -----------------------------------------------------------------------------
 
 
+_IN_ERROR_HANDLER = [0]
+
+
+def _tag_error_handler():
+    """What the error handler sends to the printers (policy 'print') is told apart from the csvpath's own printouts by WHERE it is
+    printed from: ErrorHandler.handle_error is wrapped (class level, from outside) and printouts made while it runs are error
+    messages - their wording (an exception's text, 'Wrong value in match component ...') is not part of the compared printouts."""
+    from csvpath.util.error import ErrorHandler
+
+    if getattr(ErrorHandler.handle_error, "_verif", False):
+        return
+    orig = ErrorHandler.handle_error
+
+    def handle_error(self, ex):
+        _IN_ERROR_HANDLER[0] += 1
+        try:
+            return orig(self, ex)
+        finally:
+            _IN_ERROR_HANDLER[0] -= 1
+
+    handle_error._verif = True
+    ErrorHandler.handle_error = handle_error
+
+
 class CapturePrinter:
     def __init__(self):
         self.lines = []
         self.named = []
+        self.errmsgs = 0          # printouts made by the error handler (not in self.lines)
+        _tag_error_handler()
 
     @property
     def last_line(self):
@@ -88,10 +114,16 @@ class CapturePrinter:
         return len(self.lines)
 
     def print(self, string):
+        if _IN_ERROR_HANDLER[0]:
+            self.errmsgs += 1
+            return
         self.lines.append(string)
         self.named.append((None, string))
 
     def print_to(self, name, string):
+        if _IN_ERROR_HANDLER[0]:
+            self.errmsgs += 1
+            return
         # a printout sent to a named stream is recorded the way the standard-out printer shows it: "[name] text"
         self.lines.append(string if not name else f"[{name}] {string}")
         self.named.append((name, string))
@@ -177,7 +209,7 @@ ERRLINE = __import__("re").compile(r"^\[[^\]]*\] Line \d+: ")     # what ErrorHa
 
 def snapshot(p, line, ret, exc, cap):
     lm = p.line_monitor
-    nerr = sum(1 for s in cap.lines if ERRLINE.match(s))
+    nerr = cap.errmsgs
     if nerr > getattr(cap, "_err_lines", 0):
         cap._err_calls = getattr(cap, "_err_calls", 0) + 1
     cap._err_lines = nerr
@@ -198,6 +230,7 @@ def snapshot(p, line, ret, exc, cap):
         "vars": _copy_vars(p.variables),
         "votes": votes,
         "nprinted": len(cap.lines),
+        "nerrmsgs": cap.errmsgs,
         "nerrors": len(p.errors) if p.errors else 0,
         "errcalls": getattr(cap, "_err_calls", 0),
         "errlines": [int(e.line_count) if isinstance(getattr(e, "line_count", None), int) else -99 for e in (p.errors or [])] if isinstance(p.errors, list) else [],
